@@ -325,13 +325,21 @@ def run(cfg, ops=None, rng=None):
                 step += 1
                 continue
             pre_sig = struct.shape_sig(model, struct.op_marks(op))
+            run_op = op
+            if op.get("f") and op["f"].get("act"):
+                # (a tree-changing hook action is only executed inside the envelope it was generated for, see struct.act_safe)
+                exp = expect_of(model, op)
+                safe = [a for a in op["f"]["act"] if struct.act_safe(model, op, a, exp)]
+                if len(safe) != len(op["f"]["act"]):
+                    run_op = dict(op, f=dict(op["f"], act=safe))
+                    res.bump("hook_actions_dropped_as_unsafe_here")
             try:
-                sa, ea = exec_op(wa, op)
+                sa, ea = exec_op(wa, run_op)
                 fa, la = wa.fired, wa.hooklog
             except Watchdog as wd:
                 raise Violation("GUARD", "hang", step, "hang:" + op["op"], str(wd))
             try:
-                sb, eb = exec_op(wb, op)
+                sb, eb = exec_op(wb, run_op)
                 fb, lb = wb.fired, wb.hooklog
             except Watchdog as wd:
                 raise Violation(
